@@ -251,6 +251,13 @@ def exec_sequence(specs, clear=True):
                     if callable(p) or not isinstance(p, (list, tuple)):
                         raise TypeError("a path was requested, a %s was returned" % type(p).__name__)
                     res["path"] = tuple(tuple(int(i) for i in st) for st in p)
+                elif api == "tree_struct":
+                    # the tree only (ContractionTree cannot contract multi-character labels kept as given:
+                    # its einsum equations join the labels -- with and without any cache)
+                    t = ctg.array_contract_tree(inputs, output, optimize=opt, **sizes, **ck)
+                    res["path"] = tuple(tuple(int(i) for i in st) for st in t.get_path())
+                    res["tree_inputs"] = tuple(tuple(x) for x in t.inputs)
+                    res["tree_output"] = tuple(t.output)
                 elif api == "tree":
                     t = ctg.array_contract_tree(inputs, output, optimize=opt, **sizes, **ck,
                                                 **{k: v for k, v in kwargs.items() if k == "sort_contraction_indices"})
@@ -423,6 +430,29 @@ def pools():
         m2 = (m + 1) % len(pe)
         explicit += [[(m, "path"), (m2, "expr"), (m, "expr"), (m2, "path")]]
     P["path-vs-expr"] = (pe, ["path", "expr", "einsum_expr", "array_contract", "einsum"], explicit)
+    # multi-character string labels kept as given (canonicalize=False): members come in pairs whose terms
+    # (and outputs) CONCATENATE to the same strings -- ('a','b','ab') vs ('ab','a','b') -> "abab";
+    # ('a','bc') vs ('ab','c') -> "abc" -- with the identical explicit size_dict (same item order): a key
+    # built from joined strings instead of the nested tuples cannot tell them apart
+    sd1 = (("a", 2), ("b", 3), ("ab", 4), ("c", 2), ("d", 3))
+    sd2 = (("a", 2), ("bc", 3), ("ab", 2), ("c", 3), ("b", 3), ("ca", 2))
+    mc = [dict(inputs=(("a", "b", "ab"), ("ab", "c"), ("c", "d")), output=("a", "b", "d"),
+               shapes=((2, 3, 4), (4, 2), (2, 3)), size_dict=sd1),
+          dict(inputs=(("ab", "a", "b"), ("ab", "c"), ("c", "d")), output=("a", "b", "d"),
+               shapes=((4, 2, 3), (4, 2), (2, 3)), size_dict=sd1),
+          dict(inputs=(("a", "bc"), ("bc", "a")), output=(), shapes=((2, 3), (3, 2)), size_dict=sd2),
+          dict(inputs=(("ab", "c"), ("b", "ca")), output=(), shapes=((2, 3), (3, 2)), size_dict=sd2),
+          dict(inputs=(("a", "b", "ab"), ("c",)), output=("a", "b", "c"), shapes=((2, 3, 4), (2,)), size_dict=sd1),
+          dict(inputs=(("a", "b", "ab"), ("c",)), output=("ab", "c"), shapes=((2, 3, 4), (2,)), size_dict=sd1)]
+    mc = [var(m, canonicalize=False, optimize=o) for m in mc for o in ("auto", "greedy")]
+    mexp = []
+    for i in range(0, len(mc), 4):          # members i..i+3: pair (i, i+2) 'auto', (i+1, i+3) 'greedy'
+        for a, b in ((i, i + 2), (i + 1, i + 3)):
+            for api in ("expr", "path", "tree_struct", "array_contract"):
+                mexp += [[(a, api), (b, api)], [(b, api), (a, api)]]
+            mexp += [[(a, "expr"), (b, "expr"), (a, "expr")], [(a, "path"), (b, "expr"), (a, "tree_struct"), (b, "path")],
+                     [(b, "tree_struct"), (a, "expr"), (b, "expr")]]
+    P["multichar-labels"] = (mc, ["expr", "path", "tree_struct", "array_contract"], mexp)
     P["kwargs-einsum"] = ([dict(eq="ab,bc,cd->ad", shapes=B3["shapes"], kwargs=k) for k in kws],
                           ["einsum", "einsum_expr"])
     P["canonicalize"] = ([var(B2, canonicalize=True), var(B2, canonicalize=False),
@@ -603,9 +633,13 @@ def judge_sequence(ctx, pool, specs, results, oracle, np, where, known_key=None)
         api = spec["api"]
         if res.get("exc"):
             bad = "call raised %s" % res["exc"]
-        elif api == "path":
+        elif api in ("path", "tree_struct"):
             n = len(spec["inputs"])
             p = res["path"]
+            if api == "tree_struct" and (res["tree_inputs"] != tuple(tuple(t) for t in spec["inputs"])
+                                         or res["tree_output"] != tuple(spec["output"])):
+                bad = "the returned tree is for %r -> %r, requested %r -> %r" % (
+                    res["tree_inputs"], res["tree_output"], spec["inputs"], spec["output"])
             if not oracle.path_is_valid_linear(n, p):
                 bad = "returned path %r is not a valid path for %d inputs" % (p, n)
             o = spec.get("optimize", "auto")
@@ -1272,6 +1306,8 @@ def run(ctx):
                         ctx.count("feature:path_then_option_free_expression")
                     if ma == mb and ab == "path" and aa in ("expr", "einsum_expr"):
                         ctx.count("feature:option_free_expression_then_path")
+                    if pname == "multichar-labels" and ma != mb and aa == ab:
+                        ctx.count("feature:multichar_joined_string_collision_pair")
             else:
                 mode = rng.random()
                 apis_here = [rng.choice(apis)] * len(sq) if mode < 0.6 else [rng.choice(apis) for _ in sq]
@@ -1308,7 +1344,7 @@ def run(ctx):
                 ctx.count("oracle:%s" % pname)
                 if cache:
                     hits = sum(1 for s, r in zip(specs, results)
-                               if not r.get("exc") and s["api"] != "tree" and r["nbuild"] == 0 and r["nfind"] == 0)
+                               if not r.get("exc") and s["api"] not in ("tree", "tree_struct") and r["nbuild"] == 0 and r["nfind"] == 0)
                     if hits:
                         ctx.count("oracle:sequences_with_a_hit")
                 ctx.case(("oracle", pname, tuple(sq), tuple(apis_here), cache), nontrivial=len(set(sq)) > 1,
